@@ -118,12 +118,15 @@ Files == <<"FILE1", "FILE2">>
 VariantsOf(S, dangling) ==
   LET tail == IF dangling THEN <<Dangling.toks>> ELSE <<>>
       Base == BaseOf(S) IN
-  {[argv |-> Flatten(<<<<"FILE1">>, <<"FILE2">>>> \o Base \o q \o tail), config |-> <<>>] : q \in GroupSeqs(S)}
-  \cup {[argv |-> Flatten(Base \o q \o <<<<"FILE1">>, <<"FILE2">>>> \o tail), config |-> <<>>] : q \in GroupSeqs(S)}
-  \cup {[argv |-> Flatten(<<<<"FILE1">>>> \o q \o <<<<"FILE2">>>> \o Base \o tail), config |-> <<>>] : q \in GroupSeqs(S)}
+  {[argv |-> Flatten(<<<<"FILE1">>, <<"FILE2">>>> \o Base \o q \o tail), config |-> <<>>, config2 |-> <<>>] : q \in GroupSeqs(S)}
+  \cup {[argv |-> Flatten(Base \o q \o <<<<"FILE1">>, <<"FILE2">>>> \o tail), config |-> <<>>, config2 |-> <<>>] : q \in GroupSeqs(S)}
+  \cup {[argv |-> Flatten(<<<<"FILE1">>>> \o q \o <<<<"FILE2">>>> \o Base \o tail), config |-> <<>>, config2 |-> <<>>] : q \in GroupSeqs(S)}
   \cup (IF dangling THEN {} ELSE
-        {[argv |-> Flatten(<<<<"FILE1">>, <<"FILE2">>>> \o Base \o <<<<"--config", "CFG">>>>), config |-> Flatten(q)] : q \in GroupSeqs(S)}
-        \cup {[argv |-> Flatten(<<<<"--config", "CFG">>>> \o SubSeq(q, 1, 1) \o <<<<"FILE1">>, <<"FILE2">>>> \o Base), config |-> Flatten(SubSeq(q, 2, Len(q)))] : q \in {x \in GroupSeqs(S) : Len(x) >= 1}})
+        {[argv |-> Flatten(<<<<"FILE1">>, <<"FILE2">>>> \o Base \o <<<<"--config", "CFG">>>>), config |-> Flatten(q), config2 |-> <<>>] : q \in GroupSeqs(S)}
+        \cup {[argv |-> Flatten(<<<<"--config", "CFG">>>> \o SubSeq(q, 1, 1) \o <<<<"FILE1">>, <<"FILE2">>>> \o Base), config |-> Flatten(SubSeq(q, 2, Len(q))), config2 |-> <<>>] : q \in {x \in GroupSeqs(S) : Len(x) >= 1}}
+        \* --config may be given several times: the first group in one file, the rest in a second one
+        \cup {[argv |-> Flatten(<<<<"FILE1">>, <<"--config", "CFG">>, <<"FILE2">>>> \o Base \o <<<<"--config", "CFG2">>>>), config |-> Flatten(SubSeq(q, 1, 1)), config2 |-> Flatten(SubSeq(q, 2, Len(q)))]
+                 : q \in {x \in GroupSeqs(S) : Len(x) >= 2}})
 
 ItemJ(i) == [kind |-> i.kind, a |-> J(i.a), s |-> J(i.s), b |-> J(i.b)]
 Emit ==
@@ -145,7 +148,7 @@ Spec == Init /\ [][Next]_vars
 InvVector == c.kind = "vec" => \A k \in DOMAIN c.items :
                IF c.date THEN DateLemma(c.items[k]) ELSE (EndPointIncluded(c.items[k]) /\ StepLemma(c.items[k]))
 \* the loop refines the documented meaning: for every variant the loop's result is Meaning(set of groups, files)
-LoopResult(v) == Loop(v.argv, [n \in {"CFG"} |-> v.config])
+LoopResult(v) == Loop(v.argv, [n \in {"CFG", "CFG2"} |-> IF n = "CFG" THEN v.config ELSE v.config2])
 InvOrderIndependent ==
   c.kind = "cli" =>
     LET gs == {g.toks : g \in c.groups} \cup {BaseOf(c.groups)[k] : k \in DOMAIN BaseOf(c.groups)} \cup (IF c.dangling THEN {Dangling.toks} ELSE {})
